@@ -86,11 +86,19 @@ fn flat_name_text(env: &Env, n: &str, idx: &[IEx]) -> Option<String> {
     Some(format!("{}_{}", n, parts?.join("_")))
 }
 fn fnum(x: f64) -> String { if x < 0.0 { format!("(-{})", -x) } else { format!("{}", x) } }
+fn subst_text(env: &Env, e: &IEx) -> Option<String> {
+    match e {
+        IEx::Bin(op, a, c) => Some(format!("({} {} {})", subst_text(env, a)?, op, subst_text(env, c)?)),
+        other => match ieval(env, other)? { DVal::Num(x) => Some(fnum(x)), _ => None },
+    }
+}
 /// hand-unrolled text of an expression
 fn unroll(p: &PExp, env: &Env) -> Option<String> {
     Some(match p {
         PExp::Num(x) => fnum(*x),
-        PExp::Val(e) => match ieval(env, e)? { DVal::Num(x) => fnum(x), _ => return None },
+        // a value expression is unrolled by SUBSTITUTION, operators kept (`(t + 3)` at t = -3 is `((-3) + 3)`, not `0`): folding it
+        // would be more than unrolling, and the compiler's bound analysis reads a literal coefficient more tightly than a constant expression
+        PExp::Val(e) => subst_text(env, e)?,
         PExp::Dec(n) => n.clone(),
         PExp::Comp(n, idx) => flat_name_text(env, n, idx)?,
         PExp::Bin(op, a, c) => format!("({} {} {})", unroll(a, env)?, op, unroll(c, env)?),
